@@ -251,6 +251,14 @@ def complete_case(ctx, idx, rng):
     mk, qd = MODELS[name]
     H = mk(L, gen.generic_params(rng))
     psi = gen.full_sector_mps(rng, qd, L, qtot)
+    gauge = bool(idx % 3 == 1)
+    if gauge:
+        # the same model in a site-dependent diagonal phase gauge (U H U^+ with U = prod_i diag(exp(i theta_i,s)): same labels, same spectrum, genuinely complex
+        # entries) started from a state whose tensors have a REAL dtype: the local eigenvectors must leave the real subspace the start tensors live in
+        for i_ in range(L):
+            ph = np.exp(1j * rng.uniform(0, 2 * np.pi, size=len(qd)))
+            H.A[i_] = ph[:, None, None, None] * H.A[i_] * ph.conj()[None, :, None, None]
+        psi = gen.full_sector_mps(rng, qd, L, qtot, kind='real')
     if np.linalg.norm(refs.dense_state(psi.A)) == 0:
         ctx.case((name, f'L{L}', 'empty-sector'), nontrivial=False)
         return
@@ -300,7 +308,7 @@ def complete_case(ctx, idx, rng):
     diagonal = int(connected_components(np.abs(sub) > 0, directed=False)[0]) > 1
     if diagonal:
         cls = cls + ('-diagonal-H' if not np.any(mH - np.diag(np.diag(mH))) else '-reducible-H')
-    ctx.case(('complete', integ, name, f'L{L}', f'class{cls}', 'basis-state-start' if basis_start else 'generic-start'), sample={'model': name, 'L': L, 'sector': qtot, 'bond_dims': psi.bond_dims, 'class': cls},
+    ctx.case(('complete', integ, name, f'L{L}', f'class{cls}', ('basis-state-start' if basis_start else 'generic-start') + ('+phase-gauge-H+real-dtype-start' if gauge else '')), sample={'model': name, 'L': L, 'sector': qtot, 'bond_dims': psi.bond_dims, 'class': cls},
              info={'model': name, 'L': L, 'sector': qtot, 'qD': psi.qD, 'A': psi.A, 'H_A': H.A, 'H_qD': H.qD, 'algorithm': integ})
     detail = ctx.cur_info
     fn = ptn.calculate_ground_state_local_twosite if two else ptn.calculate_ground_state_local_singlesite
